@@ -300,6 +300,39 @@ func (c *hmapClassifier) classify(n ast.Node) []paths.Event {
 		if !ok {
 			return true
 		}
+		// a value setter of the entry type called on a local entry: what it does with the value
+		if id, ok := ast.Unparen(sel.X).(*ast.Ident); ok && id.Name != c.recv && hmapProg != nil && len(call.Args) == 1 {
+			if fn, _ := c.info.Uses[sel.Sel].(*types.Func); fn != nil && fn.Pkg() == c.fi.Obj.Pkg() {
+				if efi := hmapProg.FuncOf(fn); efi != nil && efi.Decl.Body != nil && efi.Decl.Type.Params != nil && len(efi.Decl.Type.Params.List) == 1 && len(efi.Decl.Type.Params.List[0].Names) == 1 {
+					pobj := efi.Pkg.TypesInfo.Defs[efi.Decl.Type.Params.List[0].Names[0]]
+					stores, guarded := false, false
+					ast.Inspect(efi.Decl.Body, func(k ast.Node) bool {
+						switch v := k.(type) {
+						case *ast.AssignStmt:
+							for i, l := range v.Lhs {
+								if ls, ok := ast.Unparen(l).(*ast.SelectorExpr); ok && strings.EqualFold(ls.Sel.Name, "value") && i < len(v.Rhs) {
+									if rid, ok := ast.Unparen(v.Rhs[i]).(*ast.Ident); ok && efi.Pkg.TypesInfo.ObjectOf(rid) == pobj {
+										stores = true
+									}
+								}
+							}
+						case *ast.CallExpr:
+							if fid, ok := v.Fun.(*ast.Ident); ok && (fid.Name == "recover" || fid.Name == "panic") {
+								guarded = true
+							}
+						}
+						return true
+					})
+					if stores {
+						arg := "="
+						if guarded {
+							arg = "guarded"
+						}
+						out = append(out, paths.Event{Kind: "SETVAL", Arg: arg, Pos: call.Pos()})
+					}
+				}
+			}
+		}
 		if id, ok := ast.Unparen(sel.X).(*ast.Ident); !ok || id.Name != c.recv {
 			if sel.Sel.Name == "Sort" && c.norm(sel.X) == "sort" {
 				out = append(out, paths.Event{Kind: "SORT", Pos: call.Pos()})
@@ -1026,6 +1059,11 @@ func (h *hmapType) checkInsertHelpers() {
 					nUpd++
 					if pa.Has("INC") || pa.Has("BUCKET_INSERT") || pa.Has("EVICT") || pa.Has("REHASH") {
 						upd = append(upd, "an update of an existing key changes size/buckets or evicts: "+pa.String())
+					}
+					// a map's update stores the new value: directly, or through an entry method that does so
+					// unconditionally (one that can refuse — panic/recover inside — leaves the old value)
+					if pa.HasArg("SETVAL", "guarded") && !pa.HasArg("SETVAL", "=") && !pa.HasArg("SETVAL", "+=") {
+						upd = append(upd, "the update of an existing key goes through an entry method that can refuse the value (it panics and recovers inside): the old value stays and the caller is told otherwise")
 					}
 					if h.linked && mp != nil {
 						wantMove := strings.Contains(mode, "FORCE")
